@@ -133,5 +133,8 @@ Corruptions(ts) ==
     \cup {<<"dup-eq", k, Dup(ts, k)>> : k \in {k \in 1..Len(ts) : ts[k][1] = "EQ"}}
     \cup {<<"dup-comma", k, Dup(ts, k)>> : k \in {k \in 1..Len(ts) : ts[k][1] = "COMMA"}}
     \cup {<<"lead-comma", k, Ins(ts, k + 1, Comma)>> : k \in {k \in 1..Len(ts) : ts[k][1] \in {"LP", "LB"}}}
+    \* a key:value pair among the plain elements of a list ([1, k: 2]) - the list would silently lose it if it were accepted
+    \cup {<<"mix-pair", k, SubSeq(ts, 1, k) \o <<Tok("BARE", "k1"), Tok("COLON", "")>> \o SubSeq(ts, k + 1, Len(ts))>> :
+             k \in {k \in 1..(Len(ts) - 2) : ts[k][1] = "COMMA" /\ IsScalarTok(ts[k + 1]) /\ ts[k + 2][1] \in {"COMMA", "RB"}}}
     \cup {<<"truncate", k, SubSeq(ts, 1, k)>> : k \in {k \in 1..(Len(ts) - 1) : ~(ts[k][1] = "RP" /\ ts[k + 1][1] = "ID")}}
 =============================================================================
